@@ -187,7 +187,8 @@ class IntegerColumn(MafCustomColumnRecord):
     def __validate__(self) -> Optional[str]:
         min_value = self.__min_value__()
         max_value = self.__max_value__()
-        if not isinstance(self.value, int):
+        # NB: bool is a subclass of int, but True/False are not integer values
+        if not isinstance(self.value, int) or isinstance(self.value, bool):
             return self.__type_error_message__(self.value)
         elif min_value is not None and self.value < min_value:
             return "'%d' was out of range (<%s)" % (self.value, str(min_value))
@@ -652,7 +653,7 @@ class TranscriptStrand(NullableEmptyStringIsNone, MafCustomColumnRecord):
         return int(value)
 
     def __validate__(self) -> Optional[str]:
-        if not isinstance(self.value, int):
+        if not isinstance(self.value, int) or isinstance(self.value, bool):
             return "'{self.value}' was not an integer"
         elif self.value not in (-1, 1):
             return "'{self.value}' was neither -1 nor 1"
